@@ -301,6 +301,36 @@ StrongLabels == {l \in ContribLabels : ~(LinCode(S) /\ polys[l].cls = "zero")}
 
 ValueMove(key, pat) == [M("value") EXCEPT !.l = key[1], !.pt = key[2], !.pat = pat]
 
+\* position of the squeeze that yields the opening challenge of claim (group g, position i) within batch_check
+GroupFlags(st, gr) == [j \in DOMAIN gr.labels |-> st.comms[gr.labels[j]].lbound # NONE]
+SqIndex(st, g, i) ==
+  LET grs == Groups(st.qs)
+      RECURSIVE Before(_)
+      Before(k) == IF k = 0 THEN 0 ELSE Len(ChalEvents(S, GroupFlags(st, grs[k]))) + Before(k - 1)
+  IN Before(g - 1) + ChalIndex(S, GroupFlags(st, grs[g]), i)
+WKey(st, g, i) == LET gr == Groups(st.qs)[g] IN <<gr.labels[i], gr.pt>>
+WeightedCands(st) ==
+  LET grs == Groups(st.qs) IN
+  {c \in (DOMAIN grs) \X (1..MaxPolys) \X (DOMAIN grs) \X (1..MaxPolys) :
+      /\ c[1] < c[3] /\ c[2] <= Len(grs[c[1]].labels) /\ c[4] <= Len(grs[c[3]].labels)
+      /\ WKey(st, c[1], c[2]) # WKey(st, c[3], c[4])
+      \* IPA weights a degree-bounded polynomial with a second challenge times a power of the point
+      /\ S = "ipa" => (st.comms[grs[c[1]].labels[c[2]]].lbound = NONE /\ st.comms[grs[c[3]].labels[c[4]]].lbound = NONE)}
+\* cross-proof compensation (see the harness): first claim of the first group, if it carries no degree bound, the
+\* first two groups at different point values; d = the first squeeze after all opening challenges of the call
+TotalSqueezes(st) ==
+  LET grs == Groups(st.qs)
+      RECURSIVE Sum(_)
+      Sum(k) == IF k = 0 THEN 0 ELSE Len(ChalEvents(S, GroupFlags(st, grs[k]))) + Sum(k - 1)
+  IN Sum(Len(grs))
+CompensatePlans(st) ==
+  IF S \in {"marlin", "sonic", "pst13"} /\ st.kind = "batch" /\ Len(Groups(st.qs)) >= 2
+  THEN (IF Groups(st.qs)[1].pt # Groups(st.qs)[2].pt /\ st.comms[Groups(st.qs)[1].labels[1]].lbound = NONE
+        THEN {Plan("compensate", "not_accept",
+                   <<[M("compensate") EXCEPT !.l = WKey(st, 1, 1)[1], !.pt = WKey(st, 1, 1)[2],
+                                             !.k = SqIndex(st, 1, 1), !.d = TotalSqueezes(st) + 1]>>)}
+        ELSE {})
+  ELSE {}
 PlansC02(st) ==
   \* a claimed value that differs, at every position
   {Plan("value", "not_accept", <<ValueMove(key, "plus")>>) : key \in ClaimKeys(st)}
@@ -367,6 +397,15 @@ PlansC03(st) ==
   \cup (IF st.kind # "open"
         THEN {Plan("list", "not_accept", <<M(kd), FalseValue(st)>>) : kd \in {"list_empty", "list_trunc", "list_extend"}}
         ELSE {})
+  \cup CompensatePlans(st)
+  \* IPA: for a false value, the final commitment key is SOLVED from the succinct part of the relation
+  \* (c K + c h(z) h' = Q, all public) and put into the proof of every group in turn: only the final-key check
+  \* (K is the commitment to the check polynomial) stands between this proof and acceptance
+  \cup (IF S = "ipa" /\ st.kind # "lc"
+        THEN {Plan("forge_key", "not_accept",
+                   <<ValueMove(<<GroupsOfStmt(st)[g].labels[1], GroupsOfStmt(st)[g].pt>>, "plus"), ProofMut(g, "forge_ipa_key", 0)>>) :
+                g \in DOMAIN GroupsOfStmt(st)}
+        ELSE {})
 
 BoundedLabels == {l \in L : BoundOf(polys[l]) # NONE /\ polys[l].cls # "zero"}
 \* for Sonic a bound equal to max_degree shifts by zero: the artefact equals the unbounded one
@@ -389,19 +428,6 @@ PlansC04(st) ==
   \cup {Plan("foreign_shifted", "not_accept", <<[M("foreign_shifted") EXCEPT !.l = ll[1], !.l2 = ll[2]]>>) :
           ll \in {x \in BoundedLabels \X BoundedLabels : x[1] # x[2] /\ S # "sonic"}}
 
-\* position of the squeeze that yields the opening challenge of claim (group g, position i) within batch_check
-GroupFlags(st, gr) == [j \in DOMAIN gr.labels |-> st.comms[gr.labels[j]].lbound # NONE]
-SqIndex(st, g, i) ==
-  LET grs == Groups(st.qs)
-      RECURSIVE Before(_)
-      Before(k) == IF k = 0 THEN 0 ELSE Len(ChalEvents(S, GroupFlags(st, grs[k]))) + Before(k - 1)
-  IN Before(g - 1) + ChalIndex(S, GroupFlags(st, grs[g]), i)
-WKey(st, g, i) == LET gr == Groups(st.qs)[g] IN <<gr.labels[i], gr.pt>>
-WeightedCands(st) ==
-  LET grs == Groups(st.qs) IN
-  {c \in (DOMAIN grs) \X (1..MaxPolys) \X (DOMAIN grs) \X (1..MaxPolys) :
-      /\ c[1] < c[3] /\ c[2] <= Len(grs[c[1]].labels) /\ c[4] <= Len(grs[c[3]].labels)
-      /\ WKey(st, c[1], c[2]) # WKey(st, c[3], c[4])}
 Subsets2(K) == {T \in SUBSET K : Cardinality(T) \in {1, 2, 3}}
 PlansC05(st) ==
   LET K == ClaimKeys(st)
@@ -417,6 +443,13 @@ PlansC05(st) ==
           kd \in {"list_empty", "list_trunc", "list_extend"} \cup
                  (IF Cardinality(PLs(st.qs)) >= 2 /\ StrongLabels # {} THEN {"list_swap", "list_dup"} ELSE {})}
   \cup {Plan("honest", "accept", <<>>)}
+  \* IPA: a final commitment key solved from the succinct part of the relation for a false value, in every
+  \* group in turn (the per-point check does the final-key check itself; the batch must not lose it)
+  \cup (IF S = "ipa"
+        THEN {Plan("forge_key", "not_accept",
+                   <<ValueMove(<<GroupsOfStmt(st)[g].labels[1], GroupsOfStmt(st)[g].pt>>, "plus"), ProofMut(g, "forge_ipa_key", 0)>>) :
+                g \in DOMAIN GroupsOfStmt(st)}
+        ELSE {})
   \* errors weighted with the opening challenges (which depend on the sponge state only, so the party that
   \* transports the statement can compute them): xi_a * e_a + xi_b * e_b = 0 for claims of two DIFFERENT
   \* query points.  Only the verifier's own per-point randomizers separate the two equations.
@@ -427,6 +460,7 @@ PlansC05(st) ==
                                                  !.k = SqIndex(st, c[1], c[2]), !.d = SqIndex(st, c[3], c[4])]>>) :
                 c \in WeightedCands(st)}
         ELSE {})
+  \cup CompensatePlans(st)
 
 \* combinations with two distinct polynomials of non-zero coefficient, queried somewhere
 KeepSumCands(st) == {c \in (DOMAIN st.lcs) \X st.qs :
@@ -522,6 +556,7 @@ ApplyToStmt(st, m) ==
          [st EXCEPT !.deltas[<<m.l, m.pt>>] = @ + (CASE m.pat = "minus" -> -1 [] m.pat = "plus2" -> 2 [] OTHER -> 1)]
     [] m.kind \in {"value_other", "value_at"} -> [st EXCEPT !.deltas[<<m.l, m.pt>>] = 1]
     [] m.kind = "value_weighted" -> [st EXCEPT !.deltas[<<m.l, m.pt>>] = @ + 1, !.deltas[<<m.l2, m.pt2>>] = @ - 1]
+    [] m.kind = "compensate" -> [st EXCEPT !.deltas[<<m.l, m.pt>>] = @ + 1]
     [] m.kind = "point" ->
          IF st.kind = "open"
          THEN [st EXCEPT !.pt = m.pt2,
@@ -578,6 +613,7 @@ ApplyToProofs(ps, st, m) ==
          ELSE IF m.comp = "inner_empty" THEN [ps EXCEPT ![g].n = 0]
          ELSE IF m.comp = "inner_trunc" THEN [ps EXCEPT ![g].n = @ - 1]
          ELSE [ps EXCEPT ![g].muts = @ \cup {<<ent, nm>>}]
+    [] m.kind = "compensate" -> [g \in DOMAIN ps |-> IF g <= 2 THEN [ps[g] EXCEPT !.muts = @ \cup {<<0, "shift_w">>}] ELSE ps[g]]
     [] m.kind = "list_empty" -> <<>>
     [] m.kind = "list_trunc" -> SubSeq(ps, 1, Len(ps) - 1)
     [] m.kind = "list_extend" -> Append(ps, ps[Len(ps)])
